@@ -18,9 +18,9 @@ def jobs(tier):
             if esc: add('tmpl.a0.e1.pad40', [-1, 2, 0, 1, 1, 40], '{"\\u0061":V,"b":W,"a":X,"zz":"<40 bytes>"} with 1-byte symbolic values x all 14 paths (escaped key followed by more than 32 bytes of text)', nproc=8)
             add('tmpl.a%d.e%d' % (arr, esc), [-1, 2, arr, esc, 1 if q else 0], ('[V,W,X]' if arr else '{"a":V,"b":W,"a":X}' + (' with key a spelled \\u0061' if esc else '')) + ' with %s symbolic values x all 14 paths' % ('1-byte' if q else '2-byte'), nproc=8)
     fills = [31, 64] if q else list(range(28, 37)) + list(range(60, 69))
-    KN = {0: 'spaces', 1: 'string content with brackets', 2: 'string content ending in an escaped quote (backslash on the last byte of a 16/32/64-byte block)'}
+    KN = {0: 'spaces', 1: 'string content with brackets', 2: 'string content ending in an escaped quote (backslash on the last byte of a 16/32/64-byte block)', 4: 'the same followed by 20 more bytes of the string'}
     for sk in ((1, 2, 3) if q else range(5)):
-        for kind in (0, 1, 2):
+        for kind in (0, 1, 2, 4):
             for f in (fills if kind < 2 else ([17, 33, 64, 65] if q else [16, 17, 18, 32, 33, 34, 63, 64, 65, 66, 67, 129])):
                 add('fill.s%d.k%d.f%d' % (sk, kind, f), [-1, 1, sk, f, kind, 3 if q else 4],
                     'skeleton %d + %d filler bytes (%s) + %d symbolic bytes completing a valid text x all 14 paths' % (sk, f, KN[kind], 3 if q else 4), nproc=2)
